@@ -25,6 +25,10 @@ Wrap(S) == {[k |-> "ptr", e |-> t] : t \in S} \cup {[k |-> "slice", e |-> t] : t
 Fld(tg, n, jn, t) == [tag |-> tg, n |-> n, jn |-> jn, t |-> t]
 St(fs) == [k |-> "st", f |-> fs]
 TagForms(n, t) == {Fld("none", n, n, t), Fld("dash", n, n, t), Fld("str", n, n, t), Fld("omit", n, n, t), Fld("omitstr", n, n, t), Fld("ren", n, "x", t)}
+RECURSIVE Deep(_, _)
+Deep(n, t) == IF n = 0 THEN t
+              ELSE IF n \in {1, 5} THEN St(<<Fld("none", "A", "A", Deep(n - 1, t)), Fld("omit", "B", "B", K("int"))>>)
+              ELSE St(<<Fld("none", "A", "A", Deep(n - 1, t))>>)
 EmbA == St(<<Fld("none", "A", "A", K("i8")), Fld("omit", "B", "B", K("str"))>>)
 EmbM == St(<<Fld("none", "A", "A", K("mjp")), Fld("ren", "B", "b", K("f64"))>>)
 
@@ -34,7 +38,7 @@ Dyn == {K("int"), K("f64"), K("str"), K("bool"), K("mjv"), K("mjp"), K("mtp"), [
 
 Types ==
   CASE Fam = "leaf" -> ELeaf
-    [] Fam = "wrap1" -> Wrap(ELeaf)
+    [] Fam = "wrap1" -> Wrap(ELeaf \cup {St(<<>>)})
     [] Fam = "wrap2" -> Wrap(Wrap(ELeafR))
     [] Fam = "st1" -> {St(<<f>>) : f \in UNION {TagForms("A", t) : t \in ELeaf \cup Wrap(ELeafR)}}
     [] Fam = "st1l" -> {St(<<f>>) : f \in UNION {TagForms("A", t) : t \in ELeaf}}
@@ -45,6 +49,9 @@ Types ==
     \* the sorted-key iteration at scale: insertion sort up to 11 keys, radix quicksort beyond, heapsort when the depth budget is used up
     \* by shared prefixes
     \* every key kind has its own key renderer (and two paths: sorted and unsorted): keys with the top bit of the width set
+    \* programs reached through calls, not inlined: structs nested five deep; and the comma logic of structs whose fields are omitted
+    [] Fam = "deepst" -> {Deep(5, t) : t \in {K("f64"), K("str"), K("iface"), K("mjp"), [k |-> "slice", e |-> K("int")], [k |-> "ptr", e |-> K("f32")], [k |-> "map", key |-> "str", e |-> K("f64")]}}
+    [] Fam = "st3" -> {St(<<Fld(ta, "A", "A", K("int")), Fld(tb, "B", "B", K("str")), Fld(tc, "C", "C", [k |-> "slice", e |-> K("int")])>>) : ta \in {"omit", "none"}, tb \in {"omit", "omitstr"}, tc \in {"omit", "none", "dash"}}
     [] Fam = "mapkeys" -> {[k |-> "map", key |-> kk, e |-> K("int")] : kk \in {"str", "txt"} \cup IntKinds \cup UintKinds}
     [] Fam = "rec" -> {[k |-> "rec", d |-> 2], [k |-> "ptr", e |-> [k |-> "rec", d |-> 2]], [k |-> "slice", e |-> [k |-> "rec", d |-> 1]],
                       [k |-> "map", key |-> "str", e |-> [k |-> "ptr", e |-> [k |-> "rec", d |-> 1]]], St(<<Fld("omit", "A", "A", [k |-> "rec", d |-> 1])>>),
@@ -84,7 +91,7 @@ Vals(t, depth) ==
     [] t.k = "num" -> {Num("num", c) : c \in {"se", "p7", "f1_5", "sx"} \cup (IF depth = 0 THEN {"big", "nz", "s12"} ELSE {})}
     [] t.k = "raw" -> {Nil, [g |-> "raw", d |-> [j |-> "a", e |-> <<[j |-> "n", c |-> "p7"]>>]], [g |-> "raw", d |-> [j |-> "x", c |-> "xtru"]]}
                       \cup (IF depth = 0 THEN {[g |-> "raw", d |-> [j |-> "none"]], [g |-> "raw", d |-> [j |-> "s", c |-> "shtml"]]} ELSE {})
-    [] t.k = "bytes" -> {Nil, [g |-> "by", c |-> "se"], [g |-> "by", c |-> "sb64"]}
+    [] t.k = "bytes" -> {Nil, [g |-> "by", c |-> "se"], [g |-> "by", c |-> "sb64"]} \cup (IF depth = 0 THEN {[g |-> "by", c |-> "sb1"], [g |-> "by", c |-> "sb3"]} ELSE {})
     [] t.k \in MarshalerKinds -> {[g |-> "z", c |-> "sx"]} \cup (IF depth = 0 /\ t.k \in {"mjv", "mtv", "mtp"} THEN {[g |-> "z", c |-> "shtml"]} ELSE {})
     [] t.k = "iface" -> {Nil} \cup UNION {{[g |-> "i", t |-> d, v |-> v] : v \in Vals(d, 2)} : d \in (IF depth = 0 THEN Dyn ELSE {K("int"), K("mjp"), K("str")})}
     [] t.k = "ptr" -> {Nil} \cup {[g |-> "p", e |-> v] : v \in Vals(t.e, depth + 1)}
@@ -97,7 +104,9 @@ Vals(t, depth) ==
     [] t.k = "map" -> LET ks == IF t.key \in {"str", "txt"} THEN <<"x", "k", "a">> ELSE IF t.key = "u8" THEN <<"9", "12", "1">> ELSE <<"9", "-1", "12">>
                       IN {Nil, [g |-> "m", m |-> {}]} \cup {[g |-> "m", m |-> {[k |-> ks[1], v |-> v]}] : v \in Vals(t.e, depth + 1)}
                          \cup {[g |-> "m", m |-> {[k |-> ks[1], v |-> v], [k |-> ks[2], v |-> w], [k |-> ks[3], v |-> v]}] : v \in Vals(t.e, 2), w \in Vals(t.e, 2)}
-    [] t.k = "st" -> IF Len(t.f) = 1 THEN {[g |-> "st", f |-> <<v>>] : v \in Vals(t.f[1].t, depth)}
+    [] t.k = "st" -> IF Len(t.f) = 0 THEN {[g |-> "st", f |-> <<>>]}
+                     ELSE IF Len(t.f) = 3 THEN {[g |-> "st", f |-> <<u, v, w>>] : u \in Vals(t.f[1].t, 2), v \in Vals(t.f[2].t, 2), w \in Vals(t.f[3].t, 2)}
+                     ELSE IF Len(t.f) = 1 THEN {[g |-> "st", f |-> <<v>>] : v \in Vals(t.f[1].t, depth)}
                      ELSE {[g |-> "st", f |-> <<v, w>>] : v \in Vals(t.f[1].t, depth + 1), w \in Vals(t.f[2].t, depth + 1)}
 
 \* ---- what must survive a round trip (C04) ----
